@@ -203,6 +203,7 @@ func runC17(c *an.Ctx) {
 		checkDeleteSideAdvanceGuarded(c, "C17.a")
 		checkPointerStoreNeedsChange(c, "C17.b")
 		checkPendingAppendKeepsBothMaps(c, "C17.d")
+		checkInitBeforeWriteLoop(c, "C17.e")
 	}
 
 	// --- C17.d guarded-by on the pending batch
